@@ -248,3 +248,27 @@ def css_gate(n: int, i0: int, i1: int, i2: int, i3: int, i4: int, head: int) -> 
             if prop not in sanitizer.allowed_css_properties and prop not in sanitizer.allowed_svg_properties and fam not in ("background", "border", "margin", "padding"):
                 return False
         return True
+
+
+BADURLS = ["javascript:1", "vbscript:2", "data:text/html,3", " JaVaScRiPt:4", "v"]
+def uri_gate_multi(n: int, a0: int, a1: int, a2: int, u0: int, u1: int, u2: int) -> bool:
+    """
+    pre: 1 <= n <= P("nmulti", 3) and 0 <= a0 < len(URI_ATTRS) and 0 <= a1 < len(URI_ATTRS) and 0 <= a2 < len(URI_ATTRS) and a0 != a1 and a1 != a2 and a0 != a2
+    pre: 0 <= u0 < len(BADURLS) and 0 <= u1 < len(BADURLS) and 0 <= u2 < len(BADURLS)
+    pre: (n >= 3 or (a2 == (2 if a0 != 2 and a1 != 2 else (3 if a0 != 3 and a1 != 3 else 4)) and u2 == 0)) and (n >= 2 or (a1 == (0 if a0 != 0 else 1) and u1 == 0))
+    pre: P("a0", None) is None or a0 == P("a0", None)
+    post: _
+    """
+    keys = [URI_ATTRS[pick(len(URI_ATTRS), a)] for a in (a0, a1, a2)][:pick(4, n)]
+    vals = [BADURLS[pick(len(BADURLS), u)] for u in (u0, u1, u2)][:len(keys)]
+    with untraced():
+        tok = {"type": "StartTag", "name": "a", "namespace": HTML, "data": dict(zip(keys, vals))}
+        out = F.sanitize_token(tok)
+        if out is None or out["type"] != "StartTag":
+            return False
+        for k, v in zip(keys, vals):
+            if v != "v" and k in out["data"]:
+                return False                 # every URI attribute with a forbidden scheme is removed, however many there are
+            if v == "v" and k in sanitizer.allowed_attributes and k not in out["data"]:
+                return False
+        return True
